@@ -342,10 +342,16 @@ def ccsds_generator(
 
         # Fill buffer enough to parse a header
         while len(read_buffer) - current_pos < skip_header_bytes + RawPacketData.HEADER_LENGTH_BYTES:
-            result = read_bytes_from_source(buffer_read_size_bytes)
+            result = read_bytes_from_source(buffer_read_size_bytes) if read_bytes_from_source else b""
             if not result:  # If there is verifiably no more data to add, break
                 break
             read_buffer += result
+        if len(read_buffer) - current_pos < skip_header_bytes + RawPacketData.HEADER_LENGTH_BYTES:
+            # The source is exhausted and there are not enough bytes left for another packet header
+            if len(read_buffer) > current_pos:
+                logger.warning(f"Discarding {len(read_buffer) - current_pos} trailing bytes at the end of the "
+                               "data source that are too short to contain a packet header.")
+            break
         # Skip the header bytes
         current_pos += skip_header_bytes
         header_bytes = read_buffer[current_pos:current_pos + RawPacketData.HEADER_LENGTH_BYTES]
@@ -358,10 +364,15 @@ def ccsds_generator(
 
         # Fill the buffer enough to read a full packet, taking into account the user data length
         while len(read_buffer) - current_pos < n_bytes_packet:
-            result = read_bytes_from_source(buffer_read_size_bytes)
+            result = read_bytes_from_source(buffer_read_size_bytes) if read_bytes_from_source else b""
             if not result:  # If there is verifiably no more data to add, break
                 break
             read_buffer += result
+        if len(read_buffer) - current_pos < n_bytes_packet:
+            # The source ended part-way through a packet: never yield an incomplete packet
+            logger.warning(f"Discarding an incomplete packet at the end of the data source "
+                           f"(expected {n_bytes_packet} bytes, got {len(read_buffer) - current_pos}).")
+            break
 
         # Consider it a counted packet once we've verified that we have read the full packet and parsed the header
         # Update the number of packets and bytes parsed
@@ -409,7 +420,7 @@ def _print_progress(
     progress_char = "="
     bar_length = 20
 
-    if total_bytes is not None:  # If we actually have an endpoint (i.e. not using a socket)
+    if total_bytes:  # If we actually have a (non-zero) endpoint (i.e. not using a socket or an empty source)
         percentage = int((current_bytes / total_bytes) * 100)  # Percent Completed Calculation
         progress = int((bar_length * current_bytes) / total_bytes)  # Progress Done Calculation
     else:
